@@ -34,10 +34,10 @@ func (s *steer) Read(p []byte) (int, error) {
 }
 
 var libCircuits = []string{
-	vrt.Repo+"/pkg/math/add64.circ", vrt.Repo+"/pkg/math/sub64.circ", vrt.Repo+"/pkg/math/mul64.circ",
-	vrt.Repo+"/pkg/math/div64.circ", vrt.Repo+"/pkg/crypto/aes/aes_128.circ",
-	vrt.Repo+"/pkg/crypto/chacha20/chacha20block.mpclc", vrt.Repo+"/pkg/crypto/sha256/sha256.circ",
-	vrt.Repo+"/pkg/crypto/aes/aes_256.circ",
+	vrt.Repo + "/pkg/math/add64.circ", vrt.Repo + "/pkg/math/sub64.circ", vrt.Repo + "/pkg/math/mul64.circ",
+	vrt.Repo + "/pkg/math/div64.circ", vrt.Repo + "/pkg/crypto/aes/aes_128.circ",
+	vrt.Repo + "/pkg/crypto/chacha20/chacha20block.mpclc", vrt.Repo + "/pkg/crypto/sha256/sha256.circ",
+	vrt.Repo + "/pkg/crypto/aes/aes_256.circ",
 }
 
 // garbleEvalCheck garbles c with the given randomness and key, evaluates the
